@@ -67,7 +67,7 @@ func c18PropBase(race bool) *pProp {
 		race:   race,
 		rule:   "one evaluation = one simulated Parse/ParseReader call; a case is one schedule: 2-4 client goroutines, each issuing 1-3 calls with their own inputs, options (Memoize, Debug, Recover, budgets, entrypoints), plans (state operations, returned errors, panics) on the same generated package over one shared simulated sync.Pool; exactly one client runs at a time and every switch (at each function entry and loop head of the generated runtime, each pool operation, each code-block call, call entry and exit) is decided by the seeded scheduler (uniform random with drawn switch probability, or PCT-style priorities with d change points); every call must return exactly what the same call returns alone (value, error list, complete code-block history incl. the state each block saw, ExprCnt), every third schedule is also compared with the same calls run alone in a fresh process; a change of the package-level grammar value during a run is not a verdict (a synchronised lazy cache would do the same) but makes the race pass run those very calls from three clients at once; and in the -race build the Go race detector must stay silent (scheduler hand-offs are hidden from it with RaceDisable; the only edge between clients is Put(x) -> Get returning x); distinct_nontrivial = distinct interaction traces (sequence of (client, pool-op | code-block | entry | exit) events) among schedules with at least one preemption",
 		assume: []string{"clients interact only through the pool and the package-level grammar, so interleavings that differ only between interaction points are equivalent", "the race verdict is exact for the schedules explored; the race detector keeps a bounded access history per word", "grammars with state, memoisation, left recursion (direct, mutual, multi-cycle; not the nullable-prefix shape of observation O3, whose parsers never return), throw/recover; both template variants"},
-		bias:   specBias{nullableLoops: 5, leftRec: 20, states: 70, preds: 60, actions: 85, throws: 25, optimized: 35, display: 10, unicode: 50, stateBias: true},
+		bias:   specBias{nullableLoops: 5, leftRec: 20, states: 70, preds: 60, actions: 85, throws: 25, optimized: 35, display: 10, unicode: 50, stateBias: true, bigClasses: 70},
 		tier: func(tier string) pParams {
 			if tier == "thorough" {
 				if race {
